@@ -167,6 +167,7 @@ def run(ctx, rep):
     used_parity_rule(P, rep, 'R-C01-10')
     always_processed_rule(P, rep, 'R-C01-14')
     modified_file_flagged_rule(P, rep, 'R-C01-15')
+    optional_source_not_fatal_rule(P, rep, 'R-C01-18')
     C04.rehash_pairing_rule(P, rep, 'R-C01-17')
     from .carried import nullable_array_rule
     nullable_array_rule(P, rep, 'R-C01-16')
@@ -319,3 +320,40 @@ def modified_file_flagged_rule(P, rep, rid):
                   function='state_check_process', construct='%s without FIXED flag' % c.callee)
     if n < 2:
         raise AnalysisBroken('state_check_process: fewer modifying calls than on the pinned tree (%d)' % n)
+
+
+def optional_source_not_fatal_rule(P, rep, rid):
+    """before it uses the parity, repair() asks two optional sources for the lost block: files imported with -i and, by size and
+    time-stamp, every file of the array (state_search_fetch).  They are an optimisation: a candidate that cannot be read is simply not
+    a match.  The array search necessarily meets the damaged file itself (same size and time-stamp); if a read error on a candidate
+    ends the process, a single unreadable sector makes plain fix / check exit before the parity is ever tried (fix -N works).
+    Rule: in the comparison callback of the array search the failing side of the candidate's read does not lead to exit()."""
+    from .C09 import dead_blocks
+    from .C04 import cond_branches_on_call
+    f = P.fn('search_file_compare')
+    rep.analysed(f)
+    rep.rule(rid, 'search_file_compare: a failed read of a candidate file returns "no match"; it does not terminate the run', 1)
+    rd = list(f.calls({'pread', 'read'}))
+    if not rd:
+        raise AnalysisBroken('search_file_compare: read of the candidate not found')
+    dead = dead_blocks(f)
+    for c in rd:
+        brs = cond_branches_on_call(f, c)
+        if not brs:
+            raise AnalysisBroken('search_file_compare: result of the read is not tested')
+        # the failing side of a test on the read result: the successor from which the hash comparison is no longer reachable
+        cont = [x.id for x in f.calls('memhash')]
+        if not cont:
+            raise AnalysisBroken('search_file_compare: hash comparison not found')
+        fatal = []
+        for t, ci in brs:
+            if ('call', c.callee) not in f.value_sources(t.ops[0]):
+                continue          # a later test of the same variable, assigned by another call
+            for s_ in t.succ:
+                r_ = f.reach([f.blocks[s_][0]], include_start=True)
+                if any(k in r_ for k in cont):
+                    continue
+                fatal += [x for x in f.all_insts() if x.id in r_ and x.op == 'call' and x.callee in ('exit', 'os_abort', 'abort')]
+        rep.check(not fatal, rid, 'search_file_compare: read failure of a candidate is not fatal', c.loc(),
+                  'failure returns to the caller' if not fatal else 'a candidate that cannot be read (the damaged file itself has the wanted size and time-stamp) ends the process with exit(): one unreadable sector makes fix and check stop before the parity is used',
+                  function='search_file_compare', construct='read failure fatal')
